@@ -76,8 +76,11 @@ EofRange(tk, tab) == IF Len(tk.pi) = 0 THEN <<0, 0, 1, 1, 1, 1>>
 -----------------------------------------------------------------------------
 (* Expected ranges of a node (sn: specification node with token indices, on: observed node) *)
 
-FullStarts(sn, tk, tab) == {StartOf(tk, tab, sn.x.f0), StartOf(tk, tab, sn.x.f1)}
-                           \cup (IF sn.x.la > 0 THEN {EndOf(tk, tab, sn.x.la)} ELSE {})
+\* the construct's first token - for an argument that is its direction or, failing that, its first annotation
+\* (an argument's annotations stand inside it, after the direction); for every other construct the first token
+\* after its annotations - optionally extended backwards to the end of the last annotation
+FullStarts(sn, tk, tab) == (IF sn.c = "arg" THEN {StartOf(tk, tab, sn.x.f0)} ELSE {StartOf(tk, tab, sn.x.f1)})
+                           \cup (IF sn.x.la > 0 /\ sn.c # "arg" THEN {EndOf(tk, tab, sn.x.la)} ELSE {})
 FullEnds(sn, tk, tab) == {EndOf(tk, tab, sn.x.f2)} \cup (IF sn.x.ft > 0 THEN {EndOf(tk, tab, sn.x.ft)} ELSE {})
 
 NodeRangesOK(sn, on, tk, tab) ==
@@ -135,6 +138,11 @@ DocFor(d, tk, f0) ==
 
 Documentable == {"item", "method", "const", "field", "elem", "arg"}
 
+\* (a doc-comment piece without a structured body - produced by the specification's own lexer from raw
+\* characters - says which construct it documents but not what the normalised text is: presence only)
 DocsOK(sns, ons, d, tk) ==
-  \A i \in DOMAIN sns : sns[i].c \in Documentable => ons[i].doc = DocFor(d, tk, sns[i].x.f0)
+  \A i \in DOMAIN sns : sns[i].c \in Documentable =>
+     LET pi == DocPieceBefore(d, tk.pi[sns[i].x.f0] - 1)
+     IN IF pi # 0 /\ Len(d[pi]) < 4 THEN ons[i].doc # <<>>
+        ELSE ons[i].doc = DocFor(d, tk, sns[i].x.f0)
 =============================================================================
